@@ -7,6 +7,7 @@ import time
 
 import numpy as np
 
+import c0567_layouts as layouts
 from vp import common
 from vp.common import cz, cn, cb, clist
 
@@ -38,29 +39,51 @@ def build_tests(case):
     from valjean.gavroche.stat_tests.bonferroni import TestBonferroni, TestHolmBonferroni
     shape = tuple(case['shape'])
 
-    def arr(flat):
+    lay = case.get('layouts') or []
+
+    def arr(flat, kind='C'):
         vals = [unbits(b) for b in flat]
         if not shape:
             return np.float64(vals[0])
-        return np.array(vals, dtype=float).reshape(shape)
+        return layouts.apply(np.array(vals, dtype=float).reshape(shape), kind)
 
     if case['kind'] == 'stub':
-        parrs = [arr(p) for p in case['pvals']]
+        # case['layouts'][k]: memory layout of the k-th p-value array (same logical content)
+        parrs = [arr(p, lay[k] if k < len(lay) else 'C') for k, p in enumerate(case['pvals'])]
         zero = arr([0] * (int(np.prod(shape)) if shape else 1))
 
         class PvalueStub(TestStudent):
             '''a Student test whose p-values are dictated by the case'''
             def evaluate(self):
-                return TestResultStudent(self, [np.zeros_like(p) for p in parrs],
-                                         [p.copy() for p in parrs])
+                return TestResultStudent(self, [np.zeros_like(p) for p in parrs], list(parrs))
         inner = PvalueStub(Dataset(zero, zero), *[Dataset(zero, zero) for _ in parrs],
                            name='stub', alpha=case['alpha'])
     else:
-        dsets = [Dataset(arr(v), arr(e)) for v, e in case['datasets']]
+        dsets = [Dataset(arr(v, (lay[k] if k < len(lay) else 'CC')[0]), arr(e, (lay[k] if k < len(lay) else 'CC')[1]))
+                 for k, (v, e) in enumerate(case['datasets'])]
         inner = TestStudent(*dsets, name='student', alpha=case['alpha'], ndf=case['ndf'])
     tbonf = TestBonferroni(name='bonf', test=inner, alpha=case['alpha'])
     tholm = TestHolmBonferroni(name='holm', test=inner, alpha=case['alpha'])
     return inner, tbonf, tholm
+
+
+def static_methods_differ(tbonf, tholm, inner_res, rbonf, rholm):
+    '''the documented static methods, called directly on the p-value arrays (whatever their
+    memory layout), must give what evaluate() reports; None when they agree or do not exist'''
+    bonf = getattr(type(tbonf), 'bonferroni_correction', None)
+    holm = getattr(type(tholm), 'holm_bonferroni_method', None)
+    for d, pvals in enumerate(inner_res.pvalue):
+        if bonf is not None:
+            got = np.asarray(bonf(pvals, tbonf.bonf_signi_level))
+            if not np.array_equal(got, np.asarray(rbonf.rejected_null_hyp[d])):
+                return f'bonferroni_correction on array {d}'
+        if holm is not None:
+            al, fl = holm(pvals, tholm.alpha)
+            if not (np.array_equal(np.asarray(fl), np.asarray(rholm.rejected_null_hyp[d]))
+                    and np.array_equal(np.asarray(al), np.asarray(rholm.alphas_i[d]))):
+                # ties may be ranked differently by two calls only if argsort is not deterministic
+                return f'holm_bonferroni_method on array {d}'
+    return None
 
 
 def run_impl(case):
@@ -96,6 +119,7 @@ def run_impl(case):
                     'hflags': [bool(x) for x in hfl.reshape(-1)],
                     'hnb': int(rholm.nb_rejected[d]),
                 })
+            obs['static_differs'] = static_methods_differ(tbonf, tholm, inner_res, rbonf, rholm)
             if len(rbonf.rejected_null_hyp) != ndat or len(rholm.rejected_null_hyp) != ndat:
                 return {'raise': 'WrongNumberOfDatasets'}
             return obs
@@ -110,6 +134,10 @@ def oracle(ctx, case, obs):
     tag = f' :: {json.dumps(case)[:600]}'
     if 'raise' in obs:
         ctx.oracle_failure('corrections raise ' + obs['raise'] + tag, case, key='raises')
+        return
+    if obs.get('static_differs'):
+        ctx.oracle_failure('static method called directly differs from evaluate(): ' + obs['static_differs']
+                           + tag, case, key='static-method')
         return
     alpha = case['alpha']
     lvl = alpha / 2
@@ -259,13 +287,32 @@ def gen_student(rng, m, shape, alpha):
         other = [v if rng.random() < 0.1 else (v + rng.gauss(0, 1) if v == v and abs(v) != math.inf else w)
                  for v, w in zip(ref, vals())]
         sets.append([other, errs()])
-    return {'kind': 'student', 'alpha': alpha, 'shape': shape, 'ndf': rng.choice([None, 1, 2, 10, 1000]),
+    return {'kind': 'student', 'alpha': alpha, 'shape': shape, 'ndf': rng.choice([None, 1, 2, 10, 1000, 10 ** 6]),
+            'layouts': ([[layouts.pick(rng, shape), layouts.pick(rng, shape)] for _ in sets] if rng.random() < 0.6
+                        else [[k, k] for k in [layouts.pick(rng, shape, plain=0.0)] for _ in sets]),
             'datasets': [[[bits(x) for x in v], [bits(x) for x in e]] for v, e in sets]}
 
 
-def stub_case(alpha, shape, parrs):
-    return {'kind': 'stub', 'alpha': alpha, 'shape': shape,
+def stub_case(alpha, shape, parrs, lay=None):
+    case = {'kind': 'stub', 'alpha': alpha, 'shape': shape,
             'pvals': [[bits(x) for x in p] for p in parrs]}
+    if lay:
+        case['layouts'] = lay
+    return case
+
+
+def layout_cases():
+    '''the same mixed-flag p-values (2-d and 3-d) under every memory layout'''
+    out = []
+    p6 = [0.3, 0.0001, 0.5, 0.004, 0.011, 0.9]
+    p24 = [0.5, 1e-5, 0.3, 0.002, 0.9, 0.0011, 0.7, 0.04, 0.2, 0.0008, 0.6, 0.1,
+           0.45, 3e-4, 0.35, 0.0021, 0.95, 0.0013, 0.75, 0.045, 0.25, 0.0009, 0.65, 0.15]
+    for kind in layouts.KINDS:
+        out.append(stub_case(0.05, [2, 3], [p6], [kind]))
+        out.append(stub_case(0.05, [3, 2], [p6, p6[::-1]], [kind, 'C']))
+        out.append(stub_case(0.05, [2, 3, 4], [p24], [kind]))
+    out.append(stub_case(0.05, [2, 3], [[0.001] * 6], ['B']))        # broadcast (all equal)
+    return out
 
 
 def corpus():
@@ -294,7 +341,9 @@ def gen_cases(ctx):
     quick = ctx.tier == 'quick'
     cases = corpus()
     ctx.count('corpus', len(cases))
-    nrand = 900 if quick else 16000
+    cases += layout_cases()
+    ctx.count('layout_grid_cases', len(cases) - ctx.dist['corpus'])
+    nrand = 750 if quick else 16000
     mmax = 40 if quick else 120
     for _ in range(nrand):
         m = rng.choice([1, 2, 3, 4, 5, 6, 8]) if rng.random() < 0.5 else rng.randint(1, mmax)
@@ -307,7 +356,10 @@ def gen_cases(ctx):
             continue
         nan_rate = 0.12 if rng.random() < 0.35 else 0.0
         ndat = rng.choice([1, 1, 1, 2, 3])
-        cases.append(stub_case(alpha, shape, [gen_pvals(rng, m, alpha, nan_rate) for _ in range(ndat)]))
+        parrs = [gen_pvals(rng, m, alpha, nan_rate) for _ in range(ndat)]
+        if rng.random() < 0.04:
+            parrs = [[p[0]] * m for p in parrs]                     # constant array: broadcastable
+        cases.append(stub_case(alpha, shape, parrs, [layouts.pick(rng, shape) for _ in parrs]))
     return cases
 
 
@@ -330,6 +382,9 @@ def coq_case(case, obs):
 def classify(ctx, case, obs):
     '''input distribution + non-triviality'''
     ctx.count('kind_' + case['kind'])
+    for kind in case.get('layouts') or []:
+        for k in (kind if case['kind'] == 'student' else [kind]):
+            ctx.count('layout_' + k)
     ctx.count('ndim_%d' % len(case['shape']))
     nontrivial = False
     for arr in obs.get('arrays', []):
@@ -354,7 +409,7 @@ def run(ctx):
     ctx.rule = ('corpus (NaN, p == level/m, scalars, ties) + random p-value arrays of size 1..40 (quick) / '
                 '1..120 (thorough), scalar to 3-d shapes, 1..3 compared datasets, p-values drawn around the '
                 'per-rank levels incl. the exact levels and their float neighbours, ties 20%, 0/1 10%, NaN 12% '
-                'in a third of the cases; 15% real Student tests; non-trivial = some array has flagged and '
+                'in a third of the cases; every p-value / value / error array handed over C- or Fortran-ordered, axis-permuted, strided, negatively strided, read-only or broadcast (55% non-plain) and the documented static methods called directly on them; 15% real Student tests; non-trivial = some array has flagged and '
                 'unflagged bins under Holm-Bonferroni; distinct by case content')
     cases = gen_cases(ctx)
     done = []
